@@ -76,6 +76,7 @@ def REQUIRE(tier):
            "rsp_none_dataset_handlers": 10, "rsp_with_dataset_on_wire": 15, "retrieve_final_with_identifier": 5,
            "chunked_empty_file_sent": 2, "multi_fragment_messages": 30, "apis_covered": 12,
            "message_types_covered": 23}
+    req.update({"multi_assoc_cases": 6 if q else 150, "multi_assoc_requests_judged": 100 if q else 3000})
     if not q or QUICK_CONCURRENT:
         req.update({"concurrent_cases": 4 if q else 40, "concurrent_send_msg_entered_together": 2 if q else 40,
                     "yield_hits": 100 if q else 2000})
@@ -238,7 +239,10 @@ def setup_worker():
     taps.install()
     _remember_originals()
     _install_send_tap()
-    YP = sched.YieldPoints([(_ORIG["send_msg"], "self.dul.send_pdu(pdata)", 0)], seed=0, p_yield=0.9, max_delay=0.004)
+    YP = sched.YieldPoints([(_ORIG["send_msg"], "self.dul.send_pdu(pdata)", 0),
+                            # between building the message from the primitive and encoding its fragments (multi-association cases)
+                            (_ORIG["send_msg"], "dimse_msg.context_id = context_id", 0),
+                            (_ORIG["send_msg"], "with self._send_lock:", 0)], seed=0, p_yield=0.9, max_delay=0.004)
     YP.install()
     YP.enabled = False
 
@@ -1348,6 +1352,115 @@ def run_concurrent(case, counters, attempt=0):
     return dict(viol=viol, inconclusive=None, sample=sample, nontrivial=True, sigs=sigs)
 
 
+def run_multi_assoc(case, counters, attempt=0):
+    """K associations of ONE requestor AE, each driven by its own thread, send C-FIND / C-GET / C-MOVE requests whose identifiers
+    differ in length (some empty) at the same time; what each association put on the wire is judged on its own."""
+    from pydicom.dataset import Dataset
+    from pynetdicom import evt
+    taps.reset()
+    SendTap.reset()
+    RecvTap.reset()
+    K = case.get("k", 4)
+    per = case.get("per", 6)
+    rng = rng_for(case.get("yseed", 0), PID, "multi", case.get("i", 0))
+    acc_ae = harness.make_ae(title="C16-SCP", timeouts=(3.0, 4.0, 6.0, 3.0), supported=[FIND, GET, MOVE])
+
+    def on_find(event):
+        return iter(())
+
+    def on_get(event):
+        yield 0
+
+    def on_move(event):
+        yield None, None
+    server, port = harness.start_server(acc_ae, [(evt.EVT_C_FIND, on_find), (evt.EVT_C_GET, on_get), (evt.EVT_C_MOVE, on_move)])
+    req_ae = harness.make_ae(title="C16-SCU", timeouts=(3.0, 4.0, 6.0, 3.0), requested=[FIND, GET, MOVE])
+    plans, assocs, errors = [], [None] * K, []
+    for a in range(K):
+        plan = []
+        for m in range(per):
+            api = rng.choice(["find", "find", "get", "move"])
+            n = 0 if rng.random() < 0.4 else 8 * (1 + a * per + m)        # identifier value length unique per (association, message)
+            plan.append((api, 2 * m + 1, n))
+        plans.append(plan)
+    if YP is not None:
+        YP.reseed(case.get("yseed", 0))
+        YP.enabled = True
+    barrier = threading.Barrier(K)
+
+    def ident(n):
+        ds = Dataset()
+        if n:
+            ds.QueryRetrieveLevel = "PATIENT"
+            ds.PatientID = "P" * n
+        return ds
+
+    def worker(a):
+        try:
+            assoc = req_ae.associate("127.0.0.1", port)
+            assocs[a] = assoc
+            if not assoc.is_established:
+                errors.append("association %d not established" % a)
+                return
+            barrier.wait(5.0)
+            for (api, mid, n) in plans[a]:
+                if not assoc.is_established:
+                    break
+                if api == "find":
+                    list(assoc.send_c_find(ident(n), FIND, msg_id=mid))
+                elif api == "get":
+                    list(assoc.send_c_get(ident(n), GET, msg_id=mid))
+                else:
+                    list(assoc.send_c_move(ident(n), "DEST", MOVE, msg_id=mid))
+            if assoc.is_established:
+                assoc.release()
+        except Exception as exc:
+            errors.append("thread %d: %r" % (a, exc))
+    try:
+        ths = [threading.Thread(target=worker, args=(a,), daemon=True) for a in range(K)]
+        for t in ths:
+            t.start()
+        for t in ths:
+            t.join(40.0)
+        taps.wait_quiet(5.0)
+    finally:
+        if YP is not None:
+            YP.enabled = False
+    viol, sigs, judged = [], [], 0
+    sample = {"kind": "multi-assoc", "associations": K, "requests_per_association": per, "errors": errors[:3]}
+    for a in range(K):
+        proxy = next((p for p in taps.State.socks if p.assoc is assocs[a]), None)
+        if proxy is None:
+            continue
+        msgs, v = judge_wire(taps.wire_bytes(proxy.sid, "tx"), "requestor")
+        judged += len(msgs)
+        viol.extend(v)
+        by_mid = {s["mid"]: s for s in msgs if s["name"] in ("C-FIND-RQ", "C-GET-RQ", "C-MOVE-RQ")}
+        for (api, mid, n) in plans[a]:
+            s_ = by_mid.get(mid)
+            if s_ is None:
+                continue            # not sent (the association ended early): the wire judge above reports what was sent
+            # an identifier with PatientID of n characters encodes to 8+8 (level) + 8+n bytes in implicit VR; empty -> no data set
+            want = (16 + 8 + n) if n else None
+            if s_["dlen"] != want:
+                viol.append({"key": "other-associations-identifier|%s|send_c_%s" % (s_["name"], api),
+                             "detail": "association %d, message id %d: identifier of %r bytes given, %r data-set bytes on its wire "
+                                       "(CommandDataSetType %r, %d data fragments) while %d associations were sending at the same time" % (
+                                           a, mid, want, s_["dlen"], s_["cdst"], s_["dfrags"], K)})
+        sigs.extend(sig_of("multi", s_) for s_ in msgs)
+    harness.stop_ae(req_ae)
+    harness.stop_ae(acc_ae)
+    bump(counters, "messages_judged", judged)
+    bump(counters, "multi_assoc_cases")
+    bump(counters, "multi_assoc_requests_judged", judged)
+    if YP is not None:
+        bump(counters, "yield_hits", sum(YP.hits.values()))
+    sample["messages_judged"] = judged
+    if judged < K * per // 2 and not viol:
+        return dict(viol=[], inconclusive="only %d of %d requests reached the wire (%r)" % (judged, K * per, errors[:2]), sample=sample, nontrivial=False, sigs=[])
+    return dict(viol=viol, inconclusive=None, sample=sample, nontrivial=True, sigs=sigs)
+
+
 # ================================================================== cases
 
 def gen_cases(tier, seed):
@@ -1451,6 +1564,8 @@ def gen_cases(tier, seed):
                     c["rsp_status"] = rng.choice([0x0000, 0x0000, 0x0107, 0x0116, 0x0110])
                 cases.append(c)
     # ---- concurrency (thorough)
+    for i in range(8 if quick else 200):
+        cases.append(dict(kind="multi-assoc", k=rng.choice([3, 4, 6]), per=6, yseed=rng.getrandbits(30), i=i))
     for i in range(QUICK_CONCURRENT if quick else 240):
         cases.append(dict(kind="concurrent", req_max=rng.choice([32, 48, 64, 128, 256]), n_pending=rng.choice([4, 6, 10]),
                           n_events=rng.choice([1, 2, 4, 6]), rsp_size=rng.choice([300, 1000, 3000]), ds_size=rng.choice([0, 300]),
@@ -1458,7 +1573,7 @@ def gen_cases(tier, seed):
     return cases
 
 
-RUNNERS = {"pair": run_pair, "peer-acc": run_peer_acc, "peer-req": run_peer_req, "concurrent": run_concurrent}
+RUNNERS = {"multi-assoc": run_multi_assoc, "pair": run_pair, "peer-acc": run_peer_acc, "peer-req": run_peer_req, "concurrent": run_concurrent}
 DELIVERY_ONLY = ("not-delivered|", "association-lost-after|")
 
 
